@@ -6,6 +6,8 @@ import (
 	"os"
 	"path/filepath"
 	"sort"
+	"syscall"
+	"time"
 
 	"bazil.org/fuse"
 )
@@ -25,9 +27,10 @@ type Plan struct {
 
 // PagerOpts are concretisation parameters that do not enlarge the model's state space.
 type PagerOpts struct {
-	Sector    int  // journal sector size: 512 or 4096
-	BigEndian bool // WAL checksum byte order
-	SplitHdr  bool // write WAL frame headers in two partial writes
+	Busy      time.Duration // like SQLite's busy handler: retry a refused lock for this long (0 = fail at once)
+	Sector    int           // journal sector size: 512 or 4096
+	BigEndian bool          // WAL checksum byte order
+	SplitHdr  bool          // write WAL frame headers in two partial writes
 }
 
 // Pager plays SQLite's pager: it turns the specification's environment actions into the file
@@ -72,6 +75,20 @@ func NewPager(c *Conn, l Layout, o PagerOpts) *Pager {
 }
 
 func (p *Pager) ps() int64 { return int64(p.L.PageSize) }
+
+// busy retries f while it is refused with EAGAIN, for at most Opts.Busy.
+func (p *Pager) busy(f func() error) error {
+	err := f()
+	if p.Opts.Busy <= 0 {
+		return err
+	}
+	deadline := time.Now().Add(p.Opts.Busy)
+	for err != nil && Errno(err) == syscall.EAGAIN && time.Now().Before(deadline) {
+		time.Sleep(200 * time.Microsecond)
+		err = f()
+	}
+	return err
+}
 
 // RealSize is the committed database size in real pages.
 func (p *Pager) RealSize() uint32 { return p.L.Real(len(p.Ref)) }
@@ -119,16 +136,16 @@ func (p *Pager) BeginJ(pl Plan) error {
 	if err := p.C.OpenDB(true); err != nil {
 		return fmt.Errorf("open db: %w", err)
 	}
-	if err := p.C.LockDB(fuse.LockRead, PendingByte, PendingByte); err != nil {
+	if err := p.busy(func() error { return p.C.LockDB(fuse.LockRead, PendingByte, PendingByte) }); err != nil {
 		return fmt.Errorf("lock pending: %w", err)
 	}
-	if err := p.C.LockDB(fuse.LockRead, SharedFirst, SharedFirst+SharedSize-1); err != nil {
+	if err := p.busy(func() error { return p.C.LockDB(fuse.LockRead, SharedFirst, SharedFirst+SharedSize-1) }); err != nil {
 		return fmt.Errorf("lock shared: %w", err)
 	}
 	if err := p.C.LockDB(fuse.LockUnlock, PendingByte, PendingByte); err != nil {
 		return err
 	}
-	if err := p.C.LockDB(fuse.LockWrite, ReservedByte, ReservedByte); err != nil {
+	if err := p.busy(func() error { return p.C.LockDB(fuse.LockWrite, ReservedByte, ReservedByte) }); err != nil {
 		return fmt.Errorf("lock reserved: %w", err)
 	}
 	return nil
@@ -224,10 +241,10 @@ func (p *Pager) JSync() error {
 			return err
 		}
 	}
-	if err := p.C.LockDB(fuse.LockWrite, PendingByte, PendingByte); err != nil {
+	if err := p.busy(func() error { return p.C.LockDB(fuse.LockWrite, PendingByte, PendingByte) }); err != nil {
 		return fmt.Errorf("lock pending(w): %w", err)
 	}
-	if err := p.C.LockDB(fuse.LockWrite, SharedFirst, SharedFirst+SharedSize-1); err != nil {
+	if err := p.busy(func() error { return p.C.LockDB(fuse.LockWrite, SharedFirst, SharedFirst+SharedSize-1) }); err != nil {
 		return fmt.Errorf("lock shared(w): %w", err)
 	}
 	return nil
@@ -350,18 +367,18 @@ func (p *Pager) BeginW(pl Plan) error {
 		return err
 	}
 	if first {
-		if err := p.C.LockSHM(fuse.LockRead, walDMS, walDMS); err != nil {
+		if err := p.busy(func() error { return p.C.LockSHM(fuse.LockRead, walDMS, walDMS) }); err != nil {
 			return fmt.Errorf("lock dms: %w", err)
 		}
 	}
 	if err := p.C.OpenWAL(); err != nil {
 		return err
 	}
-	if err := p.C.LockSHM(fuse.LockRead, walRead1, walRead1); err != nil {
+	if err := p.busy(func() error { return p.C.LockSHM(fuse.LockRead, walRead1, walRead1) }); err != nil {
 		return fmt.Errorf("lock read1: %w", err)
 	}
 	p.readLock = true
-	if err := p.C.LockSHM(fuse.LockWrite, walWrite, walWrite); err != nil {
+	if err := p.busy(func() error { return p.C.LockSHM(fuse.LockWrite, walWrite, walWrite) }); err != nil {
 		return fmt.Errorf("lock write: %w", err)
 	}
 	p.txN, p.txPages, p.txBytes = 0, map[uint32]int{}, map[uint32][]byte{}
@@ -493,7 +510,7 @@ func (p *Pager) WEnd() error {
 // Ckpt is a client checkpoint: every page whose last committed version is in the log is copied
 // into the database file, the file is cut to the committed size; TRUNCATE also empties the log.
 func (p *Pager) Ckpt(kind string) error {
-	if err := p.C.LockSHM(fuse.LockWrite, walCkpt, walCkpt); err != nil {
+	if err := p.busy(func() error { return p.C.LockSHM(fuse.LockWrite, walCkpt, walCkpt) }); err != nil {
 		return fmt.Errorf("lock ckpt: %w", err)
 	}
 	defer func() { _ = p.C.LockSHM(fuse.LockUnlock, walCkpt, walCkpt) }()
@@ -526,7 +543,7 @@ func (p *Pager) Ckpt(kind string) error {
 		return err
 	}
 	if kind == "TRUNCATE" {
-		if err := p.C.LockSHM(fuse.LockWrite, walWrite, walWrite); err != nil {
+		if err := p.busy(func() error { return p.C.LockSHM(fuse.LockWrite, walWrite, walWrite) }); err != nil {
 			return fmt.Errorf("lock write for truncate: %w", err)
 		}
 		terr := p.C.TruncateWAL(0)
@@ -683,3 +700,9 @@ func WalkWAL(path string, pageSize uint32) (map[uint32][]byte, uint32) {
 	}
 	return out, commitN
 }
+
+// HasHdr reports whether SQLite's view says the log has a header (false after a truncation).
+func (p *Pager) HasHdr() bool { return p.hdr }
+
+// SetCommittedSize tells a fresh pager the committed database size (real pages) of an existing database.
+func (p *Pager) SetCommittedSize(n uint32) { p.walSizeN = n }
